@@ -29,7 +29,10 @@ def guided(c, comp_ex, plan_steps, orig_states, ctx):
     def back(inst):
         key = (inst[0].name, inst[1])
         if key not in cache:
-            r = c.map_back_plan([inst])
+            try:
+                r = c.map_back_plan([inst])
+            except Exception as e:
+                raise Violation(f"map-back-exception:{'+'.join(c.case['compilers'])}:{type(e).__name__}", f"mapping back {inst[0].name}{list(map(str, inst[1]))} raised {e!r}", c.case)
             cache[key] = None if not r else (r[0][0].name, r[0][1])
         return cache[key]
 
